@@ -607,9 +607,10 @@ func (sps *H265RawSPS) Decode(data []byte) (err error) {
 	sps.Log2_max_pic_order_cnt_lsb_minus4 = r.ReadUe8()
 
 	sps.Sps_sub_layer_ordering_info_present_flag = r.ReadBit()
-	loopStart := uint8(0)
+	// present：每个子层各一组；否则只有最高子层的一组（7.3.2.2）
+	loopStart := sps.Sps_max_sub_layers_minus1
 	if sps.Sps_sub_layer_ordering_info_present_flag == 1 {
-		loopStart = sps.Sps_max_sub_layers_minus1
+		loopStart = 0
 	}
 	for i := loopStart; i <= sps.Sps_max_sub_layers_minus1; i++ {
 		sps.Sps_max_dec_pic_buffering_minus1[i] = r.ReadUe8()
